@@ -65,6 +65,7 @@ type Result struct {
 	Paths        int               `json:"paths"`
 	PathsDone    int               `json:"paths_completed"`
 	Infeasible   int               `json:"paths_infeasible"`
+	Bounded      int               `json:"paths_cut_by_stated_bound"`
 	Branches     int               `json:"symbolic_branches"`
 	Merges       int               `json:"if_conversions"`
 	Steps        int64             `json:"ssa_steps"`
@@ -291,6 +292,8 @@ func (ex *Explorer) runPath(w *worker, it workItem) {
 	switch reason {
 	case "infeasible":
 		r.Infeasible++
+	case "bounded":
+		r.Bounded++
 	default:
 		r.PathsDone++
 	}
